@@ -347,7 +347,7 @@ def oracle(case, irecs, mrecs):
             if sum(bin(w).count('1') for w in rows) != R[1]:
                 fails.append(dict(sig='popcount', what='num_coupons != popcount of the matrix', op_index=i))
         if op[0] == 6 and F:
-            for j, name in enumerate(['stream_vs_bytes', 'reserialize', 'estimator_state']):
+            for j, name in enumerate(['stream_vs_bytes', 'reserialize', 'estimator_state', 'kxp_of_empty_sketch']):
                 if F[j] != 1:
                     fails.append(dict(sig='roundtrip_' + name, what='serialize/deserialize round trip: %s differs (image %d bytes)' % (name, F[4]), op_index=i))
         if op[0] == 7 and F and R[2] == 1:
